@@ -169,6 +169,23 @@ Proof.
 Qed.
 Print Assumptions C03_varpos_spelling_refuted.
 
+(* K2: the receiver is recognised by the name `self` / by counting "@": k.m(a='x') is rejected by the keyword
+   test although nothing is positional *)
+Theorem C03_receiver_name_refuted : exists f c bd,
+  sig_ok f = true /\ c03_args_bad ctx0 f c = true /\ c_args c = [] /\ run1 ctx0 f c bd = (Raise PCallWithArgsC, []).
+Proof.
+  exists m_this, (kwcall [k_inst] [(a_, vx)]), (returns (VInt 1%Z)). repeat split; reflexivity.
+Qed.
+Print Assumptions C03_receiver_name_refuted.
+
+Theorem C03_pedantic_text_refuted : exists f c bd,
+  sig_ok f = true /\ c03_args_bad ctx0 f c = true /\ c_args c = [] /\ run1 ctx0 f c bd = (Raise PCallWithArgsC, []).
+Proof.
+  exists c_bound_ped_text, {| c_recv := [k_inst]; c_twin_recv := [K_cls]; c_args := []; c_kwargs := [(a_, vx)] |}, (returns (VInt 1%Z)).
+  repeat split; reflexivity.
+Qed.
+Print Assumptions C03_pedantic_text_refuted.
+
 (* ---------------- the hypotheses are satisfiable / the model really rejects ---------------- *)
 Example C03_guards_satisfiable :
   sig_ok f_plain = true /\ c03_args_bad ctx0 f_plain (kwcall [] [(a_, vx)]) = true
